@@ -25,7 +25,7 @@ theorem stage_gen (f : α → α × Option ε) :
 /-- the regenerated loop body calls the user-supplied function exactly once per element, whatever the outcome -/
 theorem calls_gen (f : α → α × Option ε) (s : List α) (a : α) :
     callsOf (Golem.Gen.Pipe.ForEach.body f a) s = 1 := by
-  simp [Golem.Gen.Pipe.ForEach.body]
+  cases h : (f a).2 <;> simp [Golem.Gen.Pipe.ForEach.body, h]
 
 /-- `make`, `go`, `close`: capacities, worker layout, close order -/
 theorem cfg_gen : Golem.Gen.Pipe.ForEach.cfg = StageCfg.pipeForEach := rfl
